@@ -281,6 +281,45 @@ def text_case(case):
     return r
 
 
+# sequences of prior texts: what an earlier text of an input file said must not colour a later one (every ordered pair
+# and triple of a small alphabet per class; the object built LAST is compared with direct construction)
+SEQ_TEXTS = {
+    'Uniform': [[], [['bounds', [0.5, 2.0]]], [['bounds', [-12.0, -3.0]]]],
+    'LogUniform': [[], [['bounds', [-6.0, -1.0]]], [['lin_bounds', [1e-12, 1e-3]]], [['bounds', [-3.0, 0.5]]]],
+    'Gaussian': [[], [['mean', 1.0], ['std', 0.3]], [['mean', 5.0]], [['std', 2.0]]],
+    'LogGaussian': [[], [['mean', -4.0], ['std', 0.5]], [['lin_mean', 1e-4]], [['std', 0.25]], [['lin_std', 3.0]]],
+}
+
+
+def textseq_case(case):
+    from taurex.parameter.factory import create_prior
+    r = core.R(case)
+    fx.reset_caches()
+    cls = case['cls']
+    p = None
+    for kw in case['seq']:
+        c_ = {'cls': cls, 'kw': kw, 'name': 'exact', 'bracket': 'tuple', 'ws': 'doc', 'num': 'repr'}
+        text, kwargs = render(c_)
+        try:
+            p = create_prior(text)
+        except Exception as e:
+            r.check(False, 'text-accepted', 'textseq/rejected/%s/%s' % (type(e).__name__, cls), text=text, exc=repr(e),
+                    seq=case['seq'])
+            return r
+    direct = klass(cls)(**kwargs)
+    plain = dict((k, list(v) if isinstance(v, (list, tuple)) else v) for k, v in kwargs.items())
+    earlier = sorted(set(k_ for kw in case['seq'][:-1] for k_, _ in kw) - set(plain))
+    tag = '%s/last=%s/earlier-only=%s' % (cls, kwkey(plain), '+'.join(earlier) or 'none')
+    r.check(type(p) is klass(cls), 'text-class', 'textseq/class/%s' % tag, text=text, got=type(p).__name__)
+    sa, sb = snapshot(p), snapshot(direct)
+    r.check(sa == sb, 'text-equiv', 'textseq/differs-from-direct/%s' % tag, seq=case['seq'], got=sa['params'],
+            want=sb['params'])
+    r.observe(sa['samples'])
+    r.nontrivial = len(case['seq']) > 1
+    return r
+
+
+
 def positional_case(case):
     """Outside the documented keyword syntax, but the documentation says the syntax is that of a
     Python call: a text with positional arguments may be rejected, it must not silently build a
@@ -589,6 +628,10 @@ def explore(ctx):
             seen_text.add(core.ohash(c))
             text.append(c)
     ctx.run_cases('text_case', text, phase='text')
+    import itertools as _it
+    tseq = [{'cls': c_, 'seq': [list(k_) for k_ in sq]} for c_, al in SEQ_TEXTS.items()
+            for n_ in ((1, 2, 3) if thorough else (1, 2)) for sq in _it.product(al, repeat=n_)]
+    ctx.run_cases('textseq_case', tseq, phase='text-sequences')
 
     pos = [{'cls': 'Uniform', 'args': [[1.0, 2.0]]}, {'cls': 'LogUniform', 'args': [[-3.0, -1.0]]},
            {'cls': 'Gaussian', 'args': [1.0, 0.3]}, {'cls': 'LogGaussian', 'args': [-4.0, 2.0]},
